@@ -149,12 +149,16 @@ func monitorC05(c *Ctx, r *BlockRec) {
 			}
 			allowed[tx.GasPayer()] = true // gas refund of a box/sub transaction nets out, payer may be recipient elsewhere
 		}
-		for a, d := range r.Pre {
-			if strings.Contains(d["profile"], "isCandidate=") {
-				allowed[a] = true
-				if inc := profileField(d["profile"], types.CandidateKeyIncomeAddress); inc != "" {
-					if ia, err := common.StringToAddress(inc); err == nil {
-						allowed[ia] = true
+		// profiles before AND after the block: the reward is paid when the block is finalised, to the income
+		// address the profile names then (a candidate may change it by a transaction in the reward block itself)
+		for _, dump := range []StateDump{r.Pre, r.Post} {
+			for a, d := range dump {
+				if strings.Contains(d["profile"], "isCandidate=") {
+					allowed[a] = true
+					if inc := profileField(d["profile"], types.CandidateKeyIncomeAddress); inc != "" {
+						if ia, err := common.StringToAddress(inc); err == nil {
+							allowed[ia] = true
+						}
 					}
 				}
 			}
